@@ -29,7 +29,7 @@ Example ex_rand : rand1_of draw = 578437695752307201 /\ rand2_of draw = 20146023
                   /\ hex_digits (rand1_of draw) = #"807060504030201" /\ hex_digits (rand2_of draw) = #"C020A09".
 Proof. vm_compute. repeat split. Qed.
 
-Definition ex_env := mkEnv 1711276032 draw true.
+Definition ex_env := mkEnv 1711276032 draw #"4242.0" WriteDone LinkDone true.
 Example ex_DrawOK : DrawOK ex_env.
 Proof. split; [reflexivity|]. unfold bytes_ok, byte_ok. repeat constructor. Qed.
 Example ex_new_id : new_id ex_env = #"08070605040302010C020A0966000000".
@@ -37,48 +37,70 @@ Proof. vm_compute. reflexivity. Qed.
 
 Definition empty_fs : fs := fun _ => None.
 Example ex_fresh : match get_machine_id ascii_only ex_env empty_fs with
-                   | Ok (id, f1) => id = #"08070605040302010C020A0966000000" /\ f1 machine_id_path = Some id
+                   | (Ok id, f1) => id = #"08070605040302010C020A0966000000" /\ f1 machine_id_path = Some id
                                     /\ f1 #"/tmp/other" = None
                    | _ => False
                    end.
 Proof. vm_compute. repeat split. Qed.
 
 (* a second call with another draw and clock returns the stored id *)
-Definition other_env := mkEnv 5 [255;255;255;255;255;255;255;255;255;255;255;255] false.
+Definition other_env := mkEnv 5 [255;255;255;255;255;255;255;255;255;255;255;255] #"7.3" (WriteFailed (Some [])) LinkFailed false.
 Example ex_stable : match get_machine_id ascii_only ex_env empty_fs with
-                    | Ok (id, f1) => match get_machine_id ascii_only other_env f1 with
-                                     | Ok (id2, _) => id2 = id
+                    | (Ok id, f1) => match get_machine_id ascii_only other_env f1 with
+                                     | (Ok id2, _) => id2 = id
                                      | _ => False
                                      end
                     | _ => False
                     end.
 Proof. vm_compute. reflexivity. Qed.
 
-(* the write can fail: reported as an error by get_machine_id (and unwrapped by the handler) *)
-Example ex_write_fails : get_machine_id ascii_only (mkEnv 1 draw false) empty_fs = Err.
+(* storing can fail - the disk is full (the temporary file is created, the write fails), or the link
+   fails: an error is returned, NO id file is left (and the temporary file is removed if it can be); a
+   later call with space available creates a proper id *)
+Definition full_env := mkEnv 1 draw #"4242.1" (WriteFailed (Some [])) LinkDone true.
+Example ex_write_fails : fst (get_machine_id ascii_only full_env empty_fs) = Err
+                         /\ snd (get_machine_id ascii_only full_env empty_fs) machine_id_path = None
+                         /\ snd (get_machine_id ascii_only full_env empty_fs) (tmp_path full_env) = None.
+Proof. vm_compute. repeat split. Qed.
+Example ex_tmp_path : tmp_path full_env = #"/tmp/dbus_machine_uuid.4242.1.tmp".
 Proof. vm_compute. reflexivity. Qed.
+Example ex_link_fails : fst (get_machine_id ascii_only (mkEnv 1 draw #"1.0" WriteDone LinkFailed false) empty_fs) = Err
+                        /\ snd (get_machine_id ascii_only (mkEnv 1 draw #"1.0" WriteDone LinkFailed false) empty_fs) machine_id_path = None.
+Proof. vm_compute. repeat split. Qed.
+Example ex_after_failure : match get_machine_id ascii_only ex_env (snd (get_machine_id ascii_only full_env empty_fs)) with
+                           | (Ok id, _) => id = #"08070605040302010C020A0966000000"
+                           | _ => False
+                           end.
+Proof. vm_compute. reflexivity. Qed.
+(* somebody else stored an id between exists() and the link: the link reports AlreadyExists, the other
+   id is kept and returned (modelled at the level of create_and_store) *)
+Example ex_already_exists :
+  let f := fs_write machine_id_path (new_id ex_env) empty_fs in
+  fst (create_and_store_machine_uuid (mkEnv 9 draw #"2.0" WriteDone LinkDone true) f) = Ok tt
+  /\ snd (create_and_store_machine_uuid (mkEnv 9 draw #"2.0" WriteDone LinkDone true) f) machine_id_path = Some (new_id ex_env).
+Proof. vm_compute. repeat split. Qed.
 
 Definition peer_call (member : option str) (iface : option str) : msg :=
   mkMsg MCall (mkDH iface member (Some #"/x") None (Some 77) (Some #":1.9") None None None None) 0 [].
 
 Example ex_ping : match handle_peer_message ascii_only ex_env empty_fs (peer_call (Some ping_name) (Some peer_iface)) with
-                  | Ok (true, [r], _) => m_typ r = MReply /\ dh_response_serial (m_dh r) = Some 77
+                  | (Ok (true, [r]), _) => m_typ r = MReply /\ dh_response_serial (m_dh r) = Some 77
                                          /\ dh_destination (m_dh r) = Some #":1.9" /\ m_body r = []
                   | _ => False
                   end.
 Proof. vm_compute. repeat split. Qed.
 Example ex_get_id : match handle_peer_message ascii_only ex_env empty_fs (peer_call (Some get_machine_id_name) (Some peer_iface)) with
-                    | Ok (true, [r], f1) => dh_response_serial (m_dh r) = Some 77 /\ dh_destination (m_dh r) = Some #":1.9"
+                    | (Ok (true, [r]), f1) => dh_response_serial (m_dh r) = Some 77 /\ dh_destination (m_dh r) = Some #":1.9"
                                             /\ m_body r = [ #"08070605040302010C020A0966000000" ]
                                             /\ f1 machine_id_path = Some #"08070605040302010C020A0966000000"
                     | _ => False
                     end.
 Proof. vm_compute. repeat split. Qed.
 Example ex_others :
-  handle_peer_message ascii_only ex_env empty_fs (peer_call (Some #"Pong") (Some peer_iface)) = Ok (false, [], empty_fs)
-  /\ handle_peer_message ascii_only ex_env empty_fs (peer_call None (Some peer_iface)) = Ok (false, [], empty_fs)
-  /\ handle_peer_message ascii_only ex_env empty_fs (peer_call (Some ping_name) (Some #"org.freedesktop.DBus.Peers")) = Ok (false, [], empty_fs)
-  /\ handle_peer_message ascii_only ex_env empty_fs (peer_call (Some ping_name) None) = Ok (false, [], empty_fs).
+  handle_peer_message ascii_only ex_env empty_fs (peer_call (Some #"Pong") (Some peer_iface)) = (Ok (false, []), empty_fs)
+  /\ handle_peer_message ascii_only ex_env empty_fs (peer_call None (Some peer_iface)) = (Ok (false, []), empty_fs)
+  /\ handle_peer_message ascii_only ex_env empty_fs (peer_call (Some ping_name) (Some #"org.freedesktop.DBus.Peers")) = (Ok (false, []), empty_fs)
+  /\ handle_peer_message ascii_only ex_env empty_fs (peer_call (Some ping_name) None) = (Ok (false, []), empty_fs).
 Proof. repeat split. Qed.
 Example ex_filter : filter_peer (m_dh (peer_call (Some ping_name) (Some peer_iface))) = true
                     /\ filter_peer (m_dh (peer_call (Some get_machine_id_name) (Some peer_iface))) = true
@@ -97,23 +119,28 @@ Proof. split; [reflexivity|split; reflexivity]. Qed.
 Definition peer_msg (t : msgtype) (member : str) : msg :=
   mkMsg t (mkDH (Some peer_iface) (Some member) (Some #"/x") None (Some 77) (Some #":1.9") None None None None) 0 [].
 Example ex_non_calls :
-  handle_peer_message ascii_only ex_env empty_fs (peer_msg MSignal ping_name) = Ok (false, [], empty_fs)
-  /\ handle_peer_message ascii_only ex_env empty_fs (peer_msg MReply ping_name) = Ok (false, [], empty_fs)
-  /\ handle_peer_message ascii_only ex_env empty_fs (peer_msg MError get_machine_id_name) = Ok (false, [], empty_fs)
-  /\ handle_peer_message ascii_only ex_env empty_fs (peer_msg MInvalid get_machine_id_name) = Ok (false, [], empty_fs)
+  handle_peer_message ascii_only ex_env empty_fs (peer_msg MSignal ping_name) = (Ok (false, []), empty_fs)
+  /\ handle_peer_message ascii_only ex_env empty_fs (peer_msg MReply ping_name) = (Ok (false, []), empty_fs)
+  /\ handle_peer_message ascii_only ex_env empty_fs (peer_msg MError get_machine_id_name) = (Ok (false, []), empty_fs)
+  /\ handle_peer_message ascii_only ex_env empty_fs (peer_msg MInvalid get_machine_id_name) = (Ok (false, []), empty_fs)
   /\ filter_peer (m_dh (peer_msg MSignal ping_name)) = true.
 Proof. repeat split. Qed.
 Example ex_signal_not_peer_call : ~ IsPeerCall (peer_msg MSignal ping_name).
 Proof. intros [[H _]|[H _]]; discriminate. Qed.
 
-(* the hypotheses of C20_id_always_32hex are satisfiable in both branches *)
-Example ex_env_absent : match empty_fs machine_id_path with None => e_write_ok ex_env = true | Some c => exists e0, bytes_ok (e_rand e0) /\ c = new_id e0 end.
-Proof. reflexivity. Qed.
+(* the hypothesis of C20_id_always_32hex is satisfiable in both branches *)
+Example ex_env_absent : IdFileOK empty_fs.
+Proof. left. reflexivity. Qed.
 Definition planted_fs : fs := fs_write machine_id_path (new_id ex_env) empty_fs.
-Example ex_env_planted : match planted_fs machine_id_path with None => e_write_ok other_env = true | Some c => exists e0, bytes_ok (e_rand e0) /\ c = new_id e0 end.
-Proof. vm_compute. exists ex_env. split; [apply ex_DrawOK|reflexivity]. Qed.
+Example ex_env_planted : IdFileOK planted_fs.
+Proof. right. exists ex_env. split; [apply ex_DrawOK|reflexivity]. Qed.
+(* a handler that panics because storing failed is a reachable state too, and it keeps the invariant *)
+Example ex_reach : Reach ascii_only empty_fs (snd (handle_peer_message ascii_only full_env empty_fs (peer_call (Some get_machine_id_name) (Some peer_iface)))).
+Proof. apply Reach_step; [apply Reach_refl|]. split; [reflexivity|]. unfold bytes_ok, byte_ok. repeat constructor. Qed.
+Example ex_panics : fst (handle_peer_message ascii_only full_env empty_fs (peer_call (Some get_machine_id_name) (Some peer_iface))) = Panic.
+Proof. vm_compute. reflexivity. Qed.
 Example ex_planted_returned : match get_machine_id ascii_only other_env planted_fs with
-                              | Ok (id, _) => id = #"08070605040302010C020A0966000000"
+                              | (Ok id, _) => id = #"08070605040302010C020A0966000000"
                               | _ => False
                               end.
 Proof. vm_compute. reflexivity. Qed.
